@@ -9,8 +9,14 @@
 (*   ILU(p)   (LU)^-1, pattern = level-of-fill <= p (symbolic, pure           *)
 (*            combinatorics), values = IKJ factorisation restricted to it     *)
 (*   Scale    omega I,  Diagonal  diag(d),  Matrix  M                         *)
-(* each followed by the correction filter (unit filter: zero on the filtered  *)
-(* dofs).  Part 2 is the life-cycle machine: one action per public call       *)
+(* each followed by the CORRECTION filter.  A filter is a chain                *)
+(*   unit(u1) ; mean(prim, dual) ; unit(u2)                                   *)
+(* (LAFEM::FilterChain<UnitFilter, MeanFilter, UnitFilter>; an empty member   *)
+(* is the identity; the members act in this order).  The unit filter zeroes   *)
+(* its dofs (defect and correction alike); the mean filter with primal vector *)
+(* v and dual vector w is  cor: x - v (w.x)/(v.w),  def: x - w (v.x)/(v.w) -   *)
+(* two DIFFERENT projections as soon as v and w are not proportional.         *)
+(* Part 2 is the life-cycle machine: one action per public call               *)
 (*   InitSymbolic, InitNumeric, Apply, DoneNumeric, DoneSymbolic              *)
 (* plus UpdateValues (the application changes the matrix values, same         *)
 (* pattern).  After InitNumeric the next Apply must equal the operator of the *)
@@ -27,14 +33,16 @@ CONSTANTS NS,        \* matrix sizes
           Kinds,     \* subset of {"jacobi","sor","ssor","poly","ilu","scale","diagonal","matrix"}
           Pals,      \* value palettes for the initial values (1..3); the update switches to the next palette
           MinOff, MaxOff, \* bounds on the number of off-diagonal entries of the pattern
-          Filters,   \* 0: no filter only, 1: also filtered dofs
+          Filters,   \* 0: no filter only, 1: also unit filters, 2: also mean filters and chains, 3: ONLY mean filters and chains
           Mode,      \* "canon": the canonical history below; "hist": every history of MaxHist calls
           MaxHist
 
 VARIABLES n, P, pal, kind, par, F,   \* the chosen input (constant along a behaviour, except par.w: set_omega)
+          tab,                         \* the results of the operator for every reachable relaxation parameter, both value sets and every
+                                       \* test vector: a function of the input, computed once (Init) and constant along a behaviour
           life, cur, atInit, hist,
           wAt                          \* relaxation parameter at the time of the last init_numeric (construction before)
-vars == <<n, P, pal, kind, par, F, life, cur, atInit, wAt, hist>>
+vars == <<n, P, pal, kind, par, F, tab, life, cur, atInit, wAt, hist>>
 
 \* ---- inputs ------------------------------------------------------------------------------------------
 OffPos(nn) == {ij \in (1..nn) \X (1..nn) : ij[1] # ij[2]}
@@ -70,7 +78,21 @@ Params(kd) ==
     [] OTHER        -> {[w |-> One, m |-> 0, p |-> 0]}
 
 \* ---- Part 1: the operators -----------------------------------------------------------------------------
-Filt(v, FF) == Tup(Len(v), LAMBDA i : IF i \in FF THEN Zero ELSE v[i])
+\* filters: FF = [u1 |-> set of dofs, mk |-> 0 (no mean filter) / 1 / 2 (a pair of primal and dual vector), u2 |-> set of dofs]
+\* primal and dual vector are not proportional for nn >= 2 and <prim, dual> = 2^k > 0 (MeanFilter divides by it): 2, 4, 2 (mk = 1)
+\* resp. 1, 2, 4 (mk = 2) for nn = 2, 3, 4 - small integers, so that the dyadic exponents of the results stay small
+MeanPrim(nn, mk) == Tup(nn, LAMBDA i : IF mk = 1 THEN One ELSE <<D(2), D(1), D(-1), D(1)>>[i])
+MeanDual(nn, mk) == Tup(nn, LAMBDA i : IF mk = 1 THEN <<D(3), D(-1), D(2), D(-2)>>[i] ELSE <<D(1), D(-1), D(-1), D(2)>>[i])
+Dot(u, v) == DSumTo(LAMBDA i : Mul(u[i], v[i]), Len(u))
+UnitF(v, S) == IF S = {} THEN v ELSE Tup(Len(v), LAMBDA i : IF i \in S THEN Zero ELSE v[i])
+\* code: x.axpy(prim, -x.dot(dual) / volume)  resp.  x.axpy(dual, -x.dot(prim) / volume)
+MeanCor(v, mk) == IF mk = 0 THEN v
+                  ELSE LET p == MeanPrim(Len(v), mk)  d == MeanDual(Len(v), mk) IN VAdd(v, VScale(Div(Neg(Dot(v, d)), Dot(p, d)), p))
+MeanDef(v, mk) == IF mk = 0 THEN v
+                  ELSE LET p == MeanPrim(Len(v), mk)  d == MeanDual(Len(v), mk) IN VAdd(v, VScale(Div(Neg(Dot(v, p)), Dot(p, d)), d))
+FiltCor(v, FF) == UnitF(MeanCor(UnitF(v, FF.u1), FF.mk), FF.u2)
+FiltDef(v, FF) == UnitF(MeanDef(UnitF(v, FF.u1), FF.mk), FF.u2)
+NoFilter == [u1 |-> {}, mk |-> 0, u2 |-> {}]
 
 \* code: inv_diag := omega / d (component_invert), result := inv_diag * b
 JacobiOp(nn, A, w, b) == Tup(nn, LAMBDA i : Mul(Div(w, A[i][i]), b[i]))
@@ -110,7 +132,7 @@ RECURSIVE PolyC(_, _, _, _, _, _, _)
 PolyC(nn, Ad, Al, w, z, FF, i) ==
   IF i = 0 THEN z
   ELSE LET c == PolyC(nn, Ad, Al, w, z, FF, i - 1)
-       IN VSub(VAdd(c, z), JacobiOp(nn, Ad, w, Filt(MatVec(nn, Al, c), FF)))
+       IN VSub(VAdd(c, z), JacobiOp(nn, Ad, w, FiltDef(MatVec(nn, Al, c), FF)))
 PolyOp(nn, Ad, Al, w, m, b, FF) == PolyC(nn, Ad, Al, w, JacobiOp(nn, Ad, w, b), FF, m)
 
 \* ILU(p), symbolic: level of fill.  lev^(0) = 0 on the pattern of A, "infinite" elsewhere;
@@ -156,9 +178,8 @@ IluBack(nn, LU, y, k) ==
            s == DSumTo(LAMBDA t : Mul(LU[k][k + t], xs[k + t]), nn - k)
            xk == IF IsPow2(LU[k][k]) THEN Div(Sub(y[k], s), LU[k][k]) ELSE Inexact
        IN Tup(nn, LAMBDA i : IF i = k THEN xk ELSE xs[i])
-IluOp(nn, A, pat, p, b) ==
-  LET LU == IluFactor(nn, A, IluPattern(nn, pat, p))
-  IN IluBack(nn, LU, IluFwd(nn, LU, b, nn), 1)
+IluSolve(nn, LU, b) == IluBack(nn, LU, IluFwd(nn, LU, b, nn), 1)
+IluOp(nn, A, pat, p, b) == IluSolve(nn, IluFactor(nn, A, IluPattern(nn, pat, p)), b)
 
 \* operator of the preconditioner with the values `c` (1 = initial, 2 = updated), before the correction filter
 RawOp(kd, pr, c, b) ==
@@ -171,45 +192,85 @@ RawOp(kd, pr, c, b) ==
     [] kd = "scale"    -> VScale(pr.w, b)
     [] kd = "diagonal" -> VMul(DOf(c), b)
     [] kd = "matrix"   -> MatVec(n, A, b)
-Op(c, b) == Filt(RawOp(kind, par, c, b), F)
-OpW(w, c, b) == Filt(RawOp(kind, [par EXCEPT !.w = w], c, b), F)
-\* what PolynomialPrecond computes between an update and the next init_numeric
-PolyMixedW(w, a, c, b) == Filt(PolyOp(n, AOf(a), AOf(c), w, par.m, b, F), F)
+Op(c, b) == FiltCor(RawOp(kind, par, c, b), F)
+OpW(w, c, b) == FiltCor(RawOp(kind, [par EXCEPT !.w = w], c, b), F)
+\* what PolynomialPrecond computes between an update and the next init_numeric (cached diagonal of values a, live matrix c)
+PolyMixedW(w, a, c, b) == FiltCor(PolyOp(n, AOf(a), AOf(c), w, par.m, b, F), F)
 PolyMixed(a, c, b) == PolyMixedW(par.w, a, c, b)
 
-\* results allowed for Apply(b) when the factorisation / cached data stem from values a and relaxation parameter wAt
+\* ---- the table of results ---------------------------------------------------------------------------------
+\* All results of a behaviour are functions of the input.  They are computed once, in Init: for a relaxation parameter w
+\*   o[c][k]  the operator with the values c on test vector k, followed by the correction filter
+\*   x[a][k]  (polynomial only) cached diagonal of the values a, live matrix of the other values
+\*   ok       every UNFILTERED result is dyadic: the input lies in the exact domain
+\* (ILU: one factorisation per value set, not one per test vector.)
+RawAll(w, c) ==
+  LET A == AOf(c)  T == Tests(n)  nt == n + 2 IN
+  CASE kind = "jacobi"   -> Tup(nt, LAMBDA k : JacobiOp(n, A, w, T[k]))
+    [] kind = "sor"      -> Tup(nt, LAMBDA k : SorOp(n, A, w, T[k]))
+    [] kind = "ssor"     -> Tup(nt, LAMBDA k : SsorOp(n, A, w, T[k]))
+    [] kind = "poly"     -> Tup(nt, LAMBDA k : PolyOp(n, A, A, w, par.m, T[k], F))
+    [] kind = "ilu"      -> LET LU == IluFactor(n, A, IluPattern(n, P, par.p)) IN Tup(nt, LAMBDA k : IluSolve(n, LU, T[k]))
+    [] kind = "scale"    -> Tup(nt, LAMBDA k : VScale(w, T[k]))
+    [] kind = "diagonal" -> LET d == DOf(c) IN Tup(nt, LAMBDA k : VMul(d, T[k]))
+    [] kind = "matrix"   -> Tup(nt, LAMBDA k : MatVec(n, A, T[k]))
+MixedAll(w, a) == LET Ad == AOf(a)  Al == AOf(3 - a)  T == Tests(n) IN Tup(n + 2, LAMBDA k : PolyOp(n, Ad, Al, w, par.m, T[k], F))
+AllExact(rs) == \A k \in 1..Len(rs) : VecExact(rs[k])
+FiltAll(rs) == Tup(Len(rs), LAMBDA k : FiltCor(rs[k], F))
+TabOf(w) ==
+  LET r1 == RawAll(w, 1)  r2 == RawAll(w, 2)
+      x1 == IF kind = "poly" THEN MixedAll(w, 1) ELSE <<>>
+      x2 == IF kind = "poly" THEN MixedAll(w, 2) ELSE <<>>
+  IN [w |-> w, o |-> <<FiltAll(r1), FiltAll(r2)>>, x |-> <<FiltAll(x1), FiltAll(x2)>>,
+      ok |-> AllExact(r1) /\ AllExact(r2) /\ AllExact(x1) /\ AllExact(x2)]
+
+\* set_omega(w): public setter of Jacobi, SOR, SSOR, polynomial and scale preconditioners, callable in every life-cycle state;
+\* the new parameter must keep the input inside the exact domain.  Kinds without the setter take a no-op step.
+HasOmega == kind \in {"jacobi", "sor", "ssor", "poly", "scale"}
+OmegaOrder == <<H(1, 1), One, H(3, 1), D(2)>>
+\* tab[1] belongs to the parameter of the constructor; the further entries to the parameters set_omega may switch to:
+\* canonical histories take one (fixed) other parameter, free histories every other parameter inside the exact domain
+BuildTab ==
+  LET own == TabOf(par.w)
+      others == SelectSeq(OmegaOrder, LAMBDA w : HasOmega /\ w # par.w /\ \E q \in Params(kind) : q.w = w)
+      RECURSIVE Collect(_, _)
+      Collect(ws, all) == IF ws = <<>> THEN <<>>
+                          ELSE LET t == TabOf(Head(ws)) IN
+                               IF t.ok THEN (IF all THEN <<t>> \o Collect(Tail(ws), all) ELSE <<t>>) ELSE Collect(Tail(ws), all)
+  IN IF own.ok THEN <<own>> \o Collect(others, Mode # "canon") ELSE <<own>>
+TW(w) == tab[CHOOSE i \in 1..Len(tab) : tab[i].w = w]
+
+\* results allowed for Apply on test vector k when the factorisation / cached data stem from values a and relaxation parameter wAt
 \* and the matrix now holds values c and the parameter is par.w: a preconditioner may cache (Jacobi, polynomial: the
 \* scaled inverse diagonal is built in init_numeric) or read matrix and parameter live (SOR, SSOR, scale); the
 \* specification allows either until the next init_numeric, after which only the current values are allowed.
 \* A mixture (sweeps with one parameter, scaling with the other) is never allowed.
-Allowed(a, c, b) ==
+Allowed(a, c, k) ==
   LET ws == IF wAt = par.w THEN {par.w} ELSE {wAt, par.w}
       cs == IF a = c THEN {c} ELSE {a, c}
-  IN {OpW(w, x, b) : w \in ws, x \in cs}
-     \cup (IF kind = "poly" /\ a # c THEN {PolyMixedW(w, a, c, b) : w \in ws} ELSE {})
-
-\* the input lies in the exact domain: every result on every test vector is dyadic
-ExactInput(nn, pat, pl, kd, pr, FF) ==
-  LET T == Tests(nn) IN
-  \A c \in {1, 2} : \A k \in 1..(nn + 2) :
-     LET A == Mat(nn, pat, IF c = 1 THEN pl ELSE NextPal(pl))
-         Ao == Mat(nn, pat, IF c = 1 THEN NextPal(pl) ELSE pl)
-         r == CASE kd = "jacobi"   -> JacobiOp(nn, A, pr.w, T[k])
-                [] kd = "sor"      -> SorOp(nn, A, pr.w, T[k])
-                [] kd = "ssor"     -> SsorOp(nn, A, pr.w, T[k])
-                [] kd = "poly"     -> VAdd(PolyOp(nn, A, A, pr.w, pr.m, T[k], FF), PolyOp(nn, Ao, A, pr.w, pr.m, T[k], FF))
-                [] kd = "ilu"      -> IluOp(nn, A, pat, pr.p, T[k])
-                [] OTHER           -> T[k]
-     IN VecExact(r)
+  IN {TW(w).o[x][k] : w \in ws, x \in cs}
+     \cup (IF kind = "poly" /\ a # c THEN {TW(w).x[a][k] : w \in ws} ELSE {})
 
 \* ---- Part 2: life cycle ----------------------------------------------------------------------------------
-FilterSets(nn) == IF Filters = 0 THEN {{}} ELSE {{}, {nn}} \cup (IF nn >= 3 THEN {{1, 3}} ELSE {})
+UnitFilters(nn) == {[u1 |-> {nn}, mk |-> 0, u2 |-> {}]} \cup (IF nn >= 3 THEN {[u1 |-> {1, 3}, mk |-> 0, u2 |-> {}]} ELSE {})
+\* mean filters alone, unit ; mean, mean ; unit, unit ; mean ; unit
+MeanFilters(nn) == IF nn < 2 THEN {}
+                   ELSE {[u1 |-> {}, mk |-> 1, u2 |-> {}], [u1 |-> {}, mk |-> 2, u2 |-> {}],
+                         [u1 |-> {nn}, mk |-> 1, u2 |-> {}], [u1 |-> {}, mk |-> 2, u2 |-> {1}]}
+                        \cup (IF nn >= 3 THEN {[u1 |-> {1}, mk |-> 2, u2 |-> {3}]} ELSE {})
+FilterSets(nn) == CASE Filters = 0 -> {NoFilter}
+                    [] Filters = 1 -> {NoFilter} \cup UnitFilters(nn)
+                    [] Filters = 2 -> {NoFilter} \cup UnitFilters(nn) \cup MeanFilters(nn)
+                    [] OTHER       -> MeanFilters(nn)
 
 Init ==
   /\ n \in NS
   /\ P \in {pat \in SUBSET OffPos(n) : Cardinality(pat) >= MinOff /\ Cardinality(pat) <= MaxOff}
   /\ pal \in Pals /\ kind \in Kinds /\ par \in Params(kind) /\ F \in FilterSets(n)
-  /\ ExactInput(n, P, pal, kind, par, F)
+  \* (TLC integers have 32 bits: every filter application adds to the dyadic exponents, so the polynomial order is bounded here)
+  /\ (kind = "poly" /\ F.mk # 0 => par.m <= 2)
+  /\ tab = BuildTab
+  /\ tab[1].ok
   /\ life = "created" /\ cur = 1 /\ atInit = 0 /\ hist = <<>> /\ wAt = par.w
 
 \* value update AND set_omega before the second apply (stale values and stale parameter at once), then re-initialisation
@@ -220,31 +281,27 @@ Enabled(op) == IF Mode = "canon" THEN Len(hist) < Len(Canon) /\ Canon[Len(hist) 
 RecW(op, exp, w) == hist' = Append(hist, [op |-> op, exp |-> exp, w |-> w])
 Rec(op, exp) == RecW(op, exp, par.w)
 
-InitSymbolic == Enabled("IS") /\ life = "created" /\ life' = "symbolic" /\ Rec("IS", <<>>) /\ UNCHANGED <<n, P, pal, kind, par, F, cur, atInit, wAt>>
+InitSymbolic == Enabled("IS") /\ life = "created" /\ life' = "symbolic" /\ Rec("IS", <<>>) /\ UNCHANGED <<n, P, pal, kind, par, F, tab, cur, atInit, wAt>>
 InitNumeric  == Enabled("IN") /\ life \in {"symbolic", "numeric"} /\ life' = "numeric" /\ atInit' = cur /\ wAt' = par.w /\ Rec("IN", <<>>)
-                /\ UNCHANGED <<n, P, pal, kind, par, F, cur>>
+                /\ UNCHANGED <<n, P, pal, kind, par, F, tab, cur>>
 \* one Apply call per test vector; exp[k] = set of allowed results for test vector k
 Apply        == Enabled("AP") /\ life = "numeric"
-                /\ Rec("AP", Tup(n + 2, LAMBDA k : Allowed(atInit, cur, Tests(n)[k])))
-                /\ UNCHANGED <<n, P, pal, kind, par, F, life, cur, atInit, wAt>>
-UpdateValues == Enabled("UP") /\ cur' = 3 - cur /\ Rec("UP", <<>>) /\ UNCHANGED <<n, P, pal, kind, par, F, life, atInit, wAt>>
+                /\ Rec("AP", Tup(n + 2, LAMBDA k : Allowed(atInit, cur, k)))
+                /\ UNCHANGED <<n, P, pal, kind, par, F, tab, life, cur, atInit, wAt>>
+UpdateValues == Enabled("UP") /\ cur' = 3 - cur /\ Rec("UP", <<>>) /\ UNCHANGED <<n, P, pal, kind, par, F, tab, life, atInit, wAt>>
 DoneNumeric  == Enabled("DN") /\ life = "numeric" /\ life' = "symbolic" /\ atInit' = 0 /\ Rec("DN", <<>>)
-                /\ UNCHANGED <<n, P, pal, kind, par, F, cur, wAt>>
+                /\ UNCHANGED <<n, P, pal, kind, par, F, tab, cur, wAt>>
 DoneSymbolic == Enabled("DS") /\ life = "symbolic" /\ life' = "created" /\ Rec("DS", <<>>)
-                /\ UNCHANGED <<n, P, pal, kind, par, F, cur, atInit, wAt>>
+                /\ UNCHANGED <<n, P, pal, kind, par, F, tab, cur, atInit, wAt>>
 
-\* set_omega(w): public setter of Jacobi, SOR, SSOR, polynomial and scale preconditioners, callable in every life-cycle state;
-\* the new parameter must keep the input inside the exact domain.  Kinds without the setter take a no-op step.
-HasOmega == kind \in {"jacobi", "sor", "ssor", "poly", "scale"}
-OmegaCand == {q \in Params(kind) : q.m = par.m /\ q.p = par.p /\ q.w # par.w /\ ExactInput(n, P, pal, kind, q, F)}
-\* canonical histories take one (fixed) other parameter, free histories every other parameter; no candidate inside the exact domain: no-op
-SetOmega     == /\ Enabled("SO") /\ HasOmega /\ OmegaCand # {}
-                /\ \E q \in (IF Mode = "canon" THEN {CHOOSE r \in OmegaCand : TRUE} ELSE OmegaCand) :
-                       par' = q /\ RecW("SO", <<>>, q.w)
-                /\ UNCHANGED <<n, P, pal, kind, F, life, cur, atInit, wAt>>
-SetOmegaNop  == Enabled("SO") /\ Rec("SO", <<>>) /\ UNCHANGED <<n, P, pal, kind, par, F, life, cur, atInit, wAt>>
+\* the parameters set_omega may switch to (no candidate: a no-op step)
+OmegaCand == {tab[i].w : i \in 1..Len(tab)} \ {par.w}
+SetOmega     == /\ Enabled("SO") /\ OmegaCand # {}
+                /\ \E w \in OmegaCand : par' = [par EXCEPT !.w = w] /\ RecW("SO", <<>>, w)
+                /\ UNCHANGED <<n, P, pal, kind, F, tab, life, cur, atInit, wAt>>
+SetOmegaNop  == Enabled("SO") /\ Rec("SO", <<>>) /\ UNCHANGED <<n, P, pal, kind, par, F, tab, life, cur, atInit, wAt>>
 
-Next == InitSymbolic \/ InitNumeric \/ Apply \/ UpdateValues \/ DoneNumeric \/ DoneSymbolic \/ SetOmega \/ ((~HasOmega \/ OmegaCand = {}) /\ SetOmegaNop)
+Next == InitSymbolic \/ InitNumeric \/ Apply \/ UpdateValues \/ DoneNumeric \/ DoneSymbolic \/ SetOmega \/ (OmegaCand = {} /\ SetOmegaNop)
 Spec == Init /\ [][Next]_vars
 
 \* ---- Part 3: sanity laws of the definitions (evaluated on every generated input) ----------------------------
@@ -253,30 +310,47 @@ UpperOf(A) == Tup(n, LAMBDA i : Tup(n, LAMBDA j : IF j > i THEN A[i][j] ELSE Zer
 DiagOf(A) == Tup(n, LAMBDA i : Tup(n, LAMBDA j : IF j = i THEN A[i][j] ELSE Zero))
 MAdd(A, B) == Tup(n, LAMBDA i : Tup(n, LAMBDA j : Add(A[i][j], B[i][j])))
 MScale(a, A) == Tup(n, LAMBDA i : Tup(n, LAMBDA j : Mul(a, A[i][j])))
+\* the relations are stated for the operator itself: inputs without filter (every matrix / parameter combination has one)
+Unfiltered == hist = <<>> /\ F = NoFilter
+Res(c, k) == tab[1].o[c][k]
 \* the textbook relations, independent of the substitution order used above
-SorRelation == hist = <<>> /\ kind = "sor" => \A c \in {1, 2}, k \in 1..(n + 2) :
-   LET A == AOf(c)  b == Tests(n)[k]  x == RawOp(kind, par, c, b) IN
+SorRelation == Unfiltered /\ kind = "sor" => \A c \in {1, 2}, k \in 1..(n + 2) :
+   LET A == AOf(c)  b == Tests(n)[k]  x == Res(c, k) IN
      \* (D/w + L) x = b, multiplied by w (1/w is not dyadic for w = 3/2)
      MatVec(n, MAdd(DiagOf(A), MScale(par.w, LowerOf(A))), x) = VScale(par.w, b)
-SsorRelation == hist = <<>> /\ kind = "ssor" => \A c \in {1, 2}, k \in 1..(n + 2) :
-   LET A == AOf(c)  b == Tests(n)[k]  x == RawOp(kind, par, c, b)
+SsorRelation == Unfiltered /\ kind = "ssor" => \A c \in {1, 2}, k \in 1..(n + 2) :
+   LET A == AOf(c)  b == Tests(n)[k]  x == Res(c, k)
        Dm == DiagOf(A)  w == par.w
        Dinv == Tup(n, LAMBDA i : Tup(n, LAMBDA j : IF i = j THEN Div(One, A[i][i]) ELSE Zero))
        \* (D + wL) D^-1 (D + wU) x = w (2 - w) b
        lhs == MatVec(n, MAdd(Dm, MScale(w, LowerOf(A))), MatVec(n, Dinv, MatVec(n, MAdd(Dm, MScale(w, UpperOf(A))), x)))
    IN lhs = VScale(Mul(w, Sub(D(2), w)), b)
-JacobiRelation == hist = <<>> /\ kind = "jacobi" => \A c \in {1, 2}, k \in 1..(n + 2) :
-   LET A == AOf(c)  b == Tests(n)[k]  x == RawOp(kind, par, c, b) IN MatVec(n, DiagOf(A), x) = VScale(par.w, b)
+JacobiRelation == Unfiltered /\ kind = "jacobi" => \A c \in {1, 2}, k \in 1..(n + 2) :
+   LET A == AOf(c)  b == Tests(n)[k]  x == Res(c, k) IN MatVec(n, DiagOf(A), x) = VScale(par.w, b)
 \* ILU: L U equals A on the level-p pattern; the pattern contains the pattern of A and grows with p;
 \* complete fill (p >= n - 2 suffices for n <= 4) gives A^-1
-IluLaws == hist = <<>> /\ kind = "ilu" => \A c \in {1, 2} :
+IluLaws == Unfiltered /\ kind = "ilu" => \A c \in {1, 2} :
    LET A == AOf(c)  Q == IluPattern(n, P, par.p)  LU == IluFactor(n, A, Q)
        prod == MatMul(n, IluL(n, LU), IluU(n, LU))
    IN /\ \A ik \in Q : prod[ik[1]][ik[2]] = A[ik[1]][ik[2]]
       /\ P \subseteq Q /\ (par.p > 0 => IluPattern(n, P, par.p - 1) \subseteq Q)
-      /\ (Q = IluPattern(n, P, n) => \A k \in 1..(n + 2) : MatVec(n, A, RawOp(kind, par, c, Tests(n)[k])) = Tests(n)[k])
-Linearity == hist = <<>> => \A c \in {1, 2} :
-   LET T == Tests(n) IN Op(c, T[n + 2]) = VSub(VScale(D(2), Op(c, T[n + 1])), Op(c, T[1]))
+      /\ (Q = IluPattern(n, P, n) => \A k \in 1..(n + 2) : MatVec(n, A, Res(c, k)) = Tests(n)[k])
+\* every entry of the table (filters included) is linear in the input
+Linearity == hist = <<>> => \A i \in 1..Len(tab), c \in {1, 2} :
+   LET o == tab[i].o[c] IN o[n + 2] = VSub(VScale(D(2), o[n + 1]), o[1])
+\* the correction filter: dofs of the last unit filter vanish; a mean filter that is not followed by a unit filter leaves a
+\* correction whose dual mean vanishes.  MeanFilterLaw: the two projections of the mean filter, different from each other
+FilterLaw == hist = <<>> => \A i \in 1..Len(tab), c \in {1, 2}, k \in 1..(n + 2) :
+   LET x == tab[i].o[c][k] IN
+     /\ \A j \in F.u2 : x[j] = Zero
+     /\ (F.mk = 0 => \A j \in F.u1 : x[j] = Zero)
+     /\ (F.mk # 0 /\ F.u2 = {} => Dot(x, MeanDual(n, F.mk)) = Zero)
+MeanFilterLaw == hist = <<>> /\ F.mk # 0 =>
+   LET g == Gen(n)  p == MeanPrim(n, F.mk)  d == MeanDual(n, F.mk)  c == MeanCor(g, F.mk)  e == MeanDef(g, F.mk)
+       zero == Tup(n, LAMBDA i : Zero)
+   IN /\ c # e /\ IsPow2(Dot(p, d))
+      /\ Dot(c, d) = Zero /\ MeanCor(c, F.mk) = c /\ MeanCor(p, F.mk) = zero        \* projection along prim onto dual^perp
+      /\ Dot(e, p) = Zero /\ MeanDef(e, F.mk) = e /\ MeanDef(d, F.mk) = zero        \* projection along dual onto prim^perp
 LifeOK == life \in {"created", "symbolic", "numeric"} /\ (life = "numeric" <=> atInit # 0)
 
 \* ---- Part 4: generator ------------------------------------------------------------------------------------------
@@ -286,7 +360,9 @@ IluInfo(c) == LET Q == IluPattern(n, P, par.p)  LU == IluFactor(n, AOf(c), Q)
               IN [pat |-> Tup(n, LAMBDA i : Tup(n, LAMBDA j : IF <<i, j>> \in Q THEN 1 ELSE 0)),
                   lu |-> MatMul(n, IluL(n, LU), IluU(n, LU))]
 Emit == Final =>
-  PrintT(ToJson([n |-> n, kind |-> kind, w |-> hist[1].w, m |-> par.m, p |-> par.p, F |-> SetSeq(F),
+  PrintT(ToJson([n |-> n, kind |-> kind, w |-> hist[1].w, m |-> par.m, p |-> par.p,
+                 F |-> SetSeq(F.u1), mk |-> F.mk, F2 |-> SetSeq(F.u2),
+                 mp |-> IF F.mk = 0 THEN <<>> ELSE MeanPrim(n, F.mk), md |-> IF F.mk = 0 THEN <<>> ELSE MeanDual(n, F.mk),
                  pat |-> Tup(n, LAMBDA i : Tup(n, LAMBDA j : IF i = j \/ <<i, j>> \in P THEN 1 ELSE 0)),
                  A1 |-> AOf(1), A2 |-> AOf(2), d1 |-> DOf(1), d2 |-> DOf(2), tests |-> Tests(n),
                  ilu1 |-> IF kind = "ilu" THEN IluInfo(1) ELSE [pat |-> <<>>, lu |-> <<>>],
